@@ -18,7 +18,8 @@ RULE = ("ParameterType.parse_value is executed on packets whose field bits are c
         "delta, and independently by a postcondition on _get_raw_value. Enumerated completely: all 65536 "
         "binary16 patterns x {BE,LE}; integer widths 1..72 and 128 x encodings x byte orders x offsets 0..7 x "
         "boundary patterns; binary32/64: every exponent x {0,1,max} mantissa x sign; 1750A: all 256 exponents x "
-        "64 mantissas; plus seeded random patterns. distinct_nontrivial = distinct (kind, width, encoding, "
+        "64 mantissas; plus seeded random patterns; integers also in the XTCE 1.1 spelling twosCompliment; two decodes in five "
+        "go through a deep / shallow copy of the parameter type and its encoding. distinct_nontrivial = distinct (kind, width, encoding, "
         "byte order, offset, pattern class) signatures; pattern class 'zero' is the trivial one and is excluded.")
 ASSUMPTIONS = ["little-endian integers are exercised only at whole-byte widths (C04's own wording)",
                "float equality is bit-level (NaN==NaN, -0.0 != +0.0); NaN payloads are not compared",
